@@ -382,7 +382,7 @@ EXECUTORS = {"case": ex_case, "noop": ex_noop}
 def run(ctx):
     install(ctx)
     thorough = ctx.tier == "thorough"
-    n = (12000 if thorough else 400) // ctx.nshards
+    n = (72000 if thorough else 400) // ctx.nshards
     for j in range(n):
         r = ctx.rng("c10", j)
         fc = gen(r, empty_mode=[None, None, None, "some", "all"][j % 5] if j % 7 else "some")
